@@ -126,7 +126,12 @@ func (d *Driver) build(msg int, c *sess, fault string) built {
 	case 32:
 		f := eatFaults{nonce: fault == "nonce", guid: fault == "ueid-guid", ueidType: fault == "ueid-type", noNonce: fault == "no-nonce-claim"}
 		o := s1opt{nullPayload: fault == "null-payload", flip: fault == "sig-flip"}
-		return built{has: c.hasNonce, plain: sign1(d.signer(fault == "signer"), d.pss, nil, eat(d.dev.Cred.GUID, c.nonce, nil, f), o)}
+		f.nonceType = fault == "nonce-type"
+		key, guid := d.signer(fault == "signer"), d.dev.Cred.GUID
+		if fault == "other-device" {
+			key, guid = d.otherDevice()
+		}
+		return built{has: c.hasNonce, plain: sign1(key, d.pss, nil, eat(guid, c.nonce, nil, f), o)}
 	case 60:
 		return d.build60(c, fault)
 	case 62:
@@ -248,6 +253,14 @@ func (d *Driver) build22(c *sess, fault string) built {
 	switch fault {
 	case "no-entries":
 		v.Entries = nil
+	case "header-from-other-voucher":
+		// the splice of someone who legitimately owns another device of the same manufacturer: the victim's header, HMAC and
+		// certificate chain around the entries of his own voucher, with a blob he signs himself
+		if d.Other != nil {
+			if o, err := d.e.DB.Voucher(d.ctx, d.Other.Cred.GUID); err == nil {
+				v.Header, v.Hmac, v.CertChain = o.Header, o.Hmac, o.CertChain
+			}
+		}
 	case "entry-sig-flip":
 		v.Entries = append([]cose.Sign1Tag[fdo.VoucherEntryPayload, []byte](nil), ov.Entries...)
 		v.Entries[0].Signature = flip(v.Entries[0].Signature)
@@ -276,6 +289,9 @@ func (d *Driver) build22(c *sess, fault string) built {
 	}
 	if fault == "to1d-sig-flip" {
 		to1d.Signature = flip(to1d.Signature)
+	}
+	if fault == "to1d-sig-short" && len(to1d.Signature) > 2 {
+		to1d.Signature = to1d.Signature[:len(to1d.Signature)-2]
 	}
 	b.plain = enc(struct {
 		To0d cbor.Bstr[to0d]
@@ -317,6 +333,7 @@ func (d *Driver) build60(c *sess, fault string) built {
 			if rsaDev {
 				h.Kex = kex.ECDH256Suite
 			}
+			c.badKex = true
 		case "cipher-unknown":
 			h.Cipher = 9999
 		case "sigtype-mismatch": // another key type than the device's (and the manufacturer's)
@@ -331,7 +348,7 @@ func (d *Driver) build60(c *sess, fault string) built {
 }
 
 func (d *Driver) build64(c *sess, fault string) built {
-	b := built{has: c.has61}
+	b := built{has: c.has61 && !c.badKex} // after a HelloDevice naming another suite the driver's parameter cannot fit
 	var pend kex.Session
 	var xB []byte
 	if c.has61 {
@@ -357,7 +374,12 @@ func (d *Driver) build64(c *sess, fault string) built {
 		fdoClaim = nil
 	}
 	o := s1opt{nullPayload: fault == "null-payload", flip: fault == "sig-flip", algZero: fault == "alg-unknown"}
-	b.plain = sign1(d.signer(fault == "signer"), d.pss, unprot, eat(d.dev.Cred.GUID, c.proveDv, fdoClaim, f), o)
+	o.alg512, o.short = fault == "alg-512", fault == "sig-short"
+	key, guid := d.signer(fault == "signer"), d.dev.Cred.GUID
+	if fault == "other-device" {
+		key, guid = d.otherDevice()
+	}
+	b.plain = sign1(key, d.pss, unprot, eat(guid, c.proveDv, fdoClaim, f), o)
 	b.onResp = func(typ int, body []byte) {
 		if typ != 65 || pend == nil {
 			return
@@ -395,6 +417,17 @@ func (d *Driver) devmod(mtu uint16) (kvs []*serviceinfo.KV) {
 }
 
 // ---- keys, signatures, hashes ----
+
+// SignOpts gives the signer options the library's clients use for a key.
+func SignOpts(key crypto.Signer, pss bool) crypto.SignerOpts { return signOpts(key, pss) }
+
+// otherDevice: key and GUID of the second enrolled device (a stranger's when there is none).
+func (d *Driver) otherDevice() (crypto.Signer, protocol.GUID) {
+	if d.Other != nil {
+		return d.Other.Key, d.Other.Cred.GUID
+	}
+	return env.Key(d.e.Spec, "rawother"), protocol.GUID(rnd(16))
+}
 
 // signer is the device key, or for the "signer" faults another key of the same type.
 func (d *Driver) signer(other bool) crypto.Signer {
